@@ -131,6 +131,17 @@ pub fn build(
         };
 
         let vftable_path = vftable_type.path.clone();
+        // The vftable type is re-inserted on every attempt to resolve this type; anything
+        // else at its path is a declaration that it would silently replace.
+        if semantic
+            .type_registry
+            .get(&vftable_path)
+            .is_some_and(|existing| existing != &vftable_type)
+        {
+            anyhow::bail!(
+                "the vftable type `{vftable_path}` generated for `{resolvee_path}` conflicts with an existing type of the same name"
+            );
+        }
         let vftable_pointer_type = Type::ConstPointer(Box::new(Type::Raw(vftable_path)));
         semantic.add_item(vftable_type)?;
 
